@@ -53,7 +53,15 @@ pub enum Step {
     /// library's receive path during that poll, the writer thread runs `ops` (direct mutators) and
     /// then possibly drops the vector. Executed as a plain poll when the auditor is on, the vector
     /// is gone or borrowed by a transaction / traversal.
-    PollPreempted { j: usize, at: u8, ops: Vec<Step>, drop_vector: bool },
+    PollPreempted {
+        j: usize,
+        at: u8,
+        ops: Vec<Step>,
+        drop_vector: bool,
+        /// the ops are the body of one transaction, committed inside the poll (one multi-diff message)
+        #[serde(default)]
+        as_tx: bool,
+    },
 }
 
 impl Step {
@@ -116,7 +124,7 @@ impl Step {
             PollWoken(_) => 34,
             DropConsumer(_) => 35,
             Settle => 36,
-            PollPreempted { at, ops, drop_vector, .. } => 37 + 64 * (*at as u64 + 8 * ops.len() as u64) + 4096 * *drop_vector as u64,
+            PollPreempted { at, ops, drop_vector, as_tx, .. } => 37 + 64 * (*at as u64 + 8 * ops.len() as u64) + 4096 * *drop_vector as u64 + 8192 * *as_tx as u64,
         }
     }
 }
